@@ -199,17 +199,36 @@ const (
 	c03OpGC
 )
 
+// c03Op is kept small (24 bytes): the search keeps the enabled operations of every frontier state.
 type c03Op struct {
-	K     int
-	T     int    // target kind
-	I     int    // target index (handle table) / peer for OpenStream
-	Scope string // target scope for T == c03TScope
-	Dir   network.Direction
-	FD    bool
-	EP    int
-	P     int // peer / protocol argument
-	Size  int64
-	Prio  uint8
+	Size int64
+	Dir  network.Direction
+	K    int8
+	T    int8 // target kind
+	I    int8 // target index (handle table)
+	S    int8 // target scope for T == c03TScope (index into c03ViewScopes)
+	EP   int8
+	P    int8 // peer / protocol argument
+	FD   bool
+	Prio uint8
+}
+
+var c03ViewScopes = []string{c03Sys, c03Tr, c03PeerScope[0], c03PeerScope[1], c03ProtoScope[0], c03ProtoScope[1], c03SvcN}
+
+func c03ViewIdx(s string) int8 {
+	for i, n := range c03ViewScopes {
+		if n == s {
+			return int8(i)
+		}
+	}
+	panic("c03: not a viewable scope: " + s)
+}
+
+func (o c03Op) scope() string {
+	if o.T != c03TScope {
+		return ""
+	}
+	return c03ViewScopes[o.S]
 }
 
 func c03DirS(d network.Direction) string {
@@ -221,9 +240,9 @@ func c03DirS(d network.Direction) string {
 
 func (o c03Op) target() string {
 	if o.T == c03TScope {
-		return "View(" + o.Scope + ")"
+		return "View(" + o.scope() + ")"
 	}
-	return c03TNames[o.T] + "#" + strconv.Itoa(o.I)
+	return c03TNames[o.T] + "#" + strconv.Itoa(int(o.I))
 }
 
 func c03SizeS(n int64) string {
@@ -333,8 +352,7 @@ func (o c03Op) hash(h uint64) uint64 {
 	if o.FD {
 		b = 1
 	}
-	h = c03Mix(h, uint64(o.K), uint64(o.T), uint64(o.I), uint64(o.Dir), b, uint64(o.EP), uint64(o.P), uint64(o.Size), uint64(o.Prio))
-	return c03HashStr(h, o.Scope)
+	return c03Mix(h, uint64(o.K), uint64(o.T), uint64(o.I), uint64(o.S), uint64(o.Dir), b, uint64(o.EP), uint64(o.P), uint64(o.Size), uint64(o.Prio))
 }
 
 func c03New(scn *c03Scn) *c03Inst {
@@ -722,7 +740,7 @@ func (in *c03Inst) ops() []c03Op {
 		for _, ep := range a.eps {
 			for _, d := range a.dirs {
 				for _, fd := range a.fds {
-					ops = append(ops, c03Op{K: c03OpOpenConn, Dir: d, FD: fd, EP: ep})
+					ops = append(ops, c03Op{K: c03OpOpenConn, Dir: d, FD: fd, EP: int8(ep)})
 				}
 			}
 		}
@@ -730,14 +748,14 @@ func (in *c03Inst) ops() []c03Op {
 	if len(m.streams) < a.maxStreams {
 		for _, p := range a.streamPeers {
 			for _, d := range a.streamDirs {
-				ops = append(ops, c03Op{K: c03OpOpenStream, P: p, Dir: d})
+				ops = append(ops, c03Op{K: c03OpOpenStream, P: int8(p), Dir: d})
 			}
 		}
 	}
 	for i, h := range m.conns {
 		if h.peer < 0 && (!h.closed || a.closedOps) {
 			for _, p := range a.setPeer {
-				ops = append(ops, c03Op{K: c03OpSetPeer, I: i, P: p})
+				ops = append(ops, c03Op{K: c03OpSetPeer, I: int8(i), P: int8(p)})
 			}
 		}
 	}
@@ -747,11 +765,11 @@ func (in *c03Inst) ops() []c03Op {
 		}
 		if h.proto < 0 {
 			for _, q := range a.protos {
-				ops = append(ops, c03Op{K: c03OpSetProto, I: i, P: q})
+				ops = append(ops, c03Op{K: c03OpSetProto, I: int8(i), P: int8(q)})
 			}
 		}
 		if a.svc && !h.svc && (h.proto >= 0 || a.svcEarly) {
-			ops = append(ops, c03Op{K: c03OpSetSvc, I: i})
+			ops = append(ops, c03Op{K: c03OpSetSvc, I: int8(i)})
 		}
 	}
 	nSpans := len(m.spans)
@@ -759,19 +777,19 @@ func (in *c03Inst) ops() []c03Op {
 		if h.closed {
 			if a.closedOps {
 				if a.memOn[t] && len(a.sizes) > 0 {
-					ops = append(ops, c03Op{K: c03OpReserve, T: t, I: i, Size: 1, Prio: 255})
+					ops = append(ops, c03Op{K: c03OpReserve, T: int8(t), I: int8(i), Size: 1, Prio: 255})
 				}
 				if a.spanOn[t] && nSpans < a.maxSpans && (t != c03TSpan || h.depth < a.maxNest) {
-					ops = append(ops, c03Op{K: c03OpBeginSpan, T: t, I: i})
+					ops = append(ops, c03Op{K: c03OpBeginSpan, T: int8(t), I: int8(i)})
 				}
-				ops = append(ops, c03Op{K: c03OpDone, T: t, I: i})
+				ops = append(ops, c03Op{K: c03OpDone, T: int8(t), I: int8(i)})
 			}
 			return
 		}
 		if a.memOn[t] {
 			for _, s := range a.sizes {
 				for _, p := range a.prios {
-					ops = append(ops, c03Op{K: c03OpReserve, T: t, I: i, Size: s, Prio: p})
+					ops = append(ops, c03Op{K: c03OpReserve, T: int8(t), I: int8(i), Size: s, Prio: p})
 				}
 			}
 			// callers never release more than they reserved
@@ -779,14 +797,14 @@ func (in *c03Inst) ops() []c03Op {
 			for _, s := range append(append([]int64{}, a.sizes...), h.own) {
 				if s > 0 && s <= h.own && !seen[s] {
 					seen[s] = true
-					ops = append(ops, c03Op{K: c03OpRelease, T: t, I: i, Size: s})
+					ops = append(ops, c03Op{K: c03OpRelease, T: int8(t), I: int8(i), Size: s})
 				}
 			}
 		}
 		if a.spanOn[t] && nSpans < a.maxSpans && (t != c03TSpan || h.depth < a.maxNest) {
-			ops = append(ops, c03Op{K: c03OpBeginSpan, T: t, I: i})
+			ops = append(ops, c03Op{K: c03OpBeginSpan, T: int8(t), I: int8(i)})
 		}
-		ops = append(ops, c03Op{K: c03OpDone, T: t, I: i})
+		ops = append(ops, c03Op{K: c03OpDone, T: int8(t), I: int8(i)})
 	}
 	for i, h := range m.conns {
 		holderOps(c03TConn, i, h)
@@ -800,7 +818,7 @@ func (in *c03Inst) ops() []c03Op {
 	for _, s := range a.views {
 		for _, sz := range a.viewSizes {
 			for _, p := range a.viewPrios {
-				ops = append(ops, c03Op{K: c03OpReserve, T: c03TScope, Scope: s, Size: sz, Prio: p})
+				ops = append(ops, c03Op{K: c03OpReserve, T: c03TScope, S: c03ViewIdx(s), Size: sz, Prio: p})
 			}
 		}
 		seen := map[int64]bool{}
@@ -808,11 +826,11 @@ func (in *c03Inst) ops() []c03Op {
 		for _, sz := range append(append([]int64{}, a.viewSizes...), own) {
 			if sz > 0 && sz <= own && !seen[sz] {
 				seen[sz] = true
-				ops = append(ops, c03Op{K: c03OpRelease, T: c03TScope, Scope: s, Size: sz})
+				ops = append(ops, c03Op{K: c03OpRelease, T: c03TScope, S: c03ViewIdx(s), Size: sz})
 			}
 		}
 		if a.viewSpan && nSpans < a.maxSpans {
-			ops = append(ops, c03Op{K: c03OpBeginSpan, T: c03TScope, Scope: s})
+			ops = append(ops, c03Op{K: c03OpBeginSpan, T: c03TScope, S: c03ViewIdx(s)})
 		}
 	}
 	if a.gc {
@@ -911,7 +929,7 @@ func (in *c03Inst) applyOp(op c03Op) error {
 	switch op.K {
 	case c03OpOpenConn:
 		ep := &c03EPs[op.EP]
-		nh := &c03Holder{kind: c03KConn, idx: len(in.conns), dir: op.Dir, fd: op.FD, ep: op.EP, peer: -1, proto: -1}
+		nh := &c03Holder{kind: c03KConn, idx: len(in.conns), dir: op.Dir, fd: op.FD, ep: int(op.EP), peer: -1, proto: -1}
 		d := nh.counts()
 		c, err := in.rm.OpenConnection(op.Dir, op.FD, ep.ma)
 		capKey, capHit := "", false
@@ -955,7 +973,7 @@ func (in *c03Inst) applyOp(op c03Op) error {
 		in.conns = append(in.conns, c)
 
 	case c03OpOpenStream:
-		nh := &c03Holder{kind: c03KStream, idx: len(in.streams), dir: op.Dir, peer: op.P, proto: -1}
+		nh := &c03Holder{kind: c03KStream, idx: len(in.streams), dir: op.Dir, peer: int(op.P), proto: -1}
 		d := nh.counts()
 		s, err := in.rm.OpenStream(c03PeerIDs[op.P], op.Dir)
 		chain := append([]c03Link{{"stream", nil, m.lim.stream}}, m.scopeLinks(m.charged(nh), us)...)
@@ -985,7 +1003,7 @@ func (in *c03Inst) applyOp(op c03Op) error {
 		d := h.res()
 		peerL := m.scopeLinks([]string{c03PeerScope[op.P]}, us)
 		pi, pwhy := c03FirstRefusing(peerL, d, 255, true)
-		wrong := h.allow && !c03EPs[h.ep].allowedFor(op.P)
+		wrong := h.allow && !c03EPs[h.ep].allowedFor(int(op.P))
 		must, may := pi >= 0, pi >= 0
 		why := "peer " + pwhy
 		if wrong {
@@ -1006,7 +1024,7 @@ func (in *c03Inst) applyOp(op c03Op) error {
 			if must {
 				return seqmc.Violation("accepted-over-limit:SetPeer", "%s succeeded although %s would exceed its limit (holder %v)", op, why, d)
 			}
-			h.peer = op.P
+			h.peer = int(op.P)
 			if wrong {
 				h.allow = false
 				in.outcome("SetPeer: attached, allow-listed connection transferred to the standard scopes")
@@ -1055,7 +1073,7 @@ func (in *c03Inst) applyOp(op c03Op) error {
 			if err != nil {
 				return c03Spurious(op, err)
 			}
-			h.proto = op.P
+			h.proto = int(op.P)
 			in.outcome("SetProtocol: attached")
 			break
 		}
@@ -1114,13 +1132,13 @@ func (in *c03Inst) applyOp(op c03Op) error {
 		var h *c03Holder
 		var err error
 		if op.T == c03TScope {
-			err = in.view(op.Scope, func(s network.ResourceScope) error { return s.ReserveMemory(int(op.Size), op.Prio) })
+			err = in.view(op.scope(), func(s network.ResourceScope) error { return s.ReserveMemory(int(op.Size), op.Prio) })
 		} else {
 			var sc network.ResourceScopeSpan
-			h, sc = in.holder(op.T, op.I)
+			h, sc = in.holder(int(op.T), int(op.I))
 			err = sc.ReserveMemory(int(op.Size), op.Prio)
 		}
-		chain, open := m.memChain(h, op.Scope, us)
+		chain, open := m.memChain(h, op.scope(), us)
 		if !open {
 			// some owner is closed: which error comes back is not specified; nothing may be charged
 			if err == nil {
@@ -1139,7 +1157,7 @@ func (in *c03Inst) applyOp(op c03Op) error {
 			if h != nil {
 				h.own += op.Size
 			} else {
-				m.direct[op.Scope] += op.Size
+				m.direct[op.scope()] += op.Size
 			}
 			in.outcome(fmt.Sprintf("ReserveMemory(%s prio %d): granted, chain of %d", c03TNames[op.T], op.Prio, len(chain)))
 			break
@@ -1158,13 +1176,13 @@ func (in *c03Inst) applyOp(op c03Op) error {
 
 	case c03OpRelease:
 		if op.T == c03TScope {
-			in.view(op.Scope, func(s network.ResourceScope) error { s.ReleaseMemory(int(op.Size)); return nil })
-			m.direct[op.Scope] -= op.Size
-			if m.direct[op.Scope] == 0 {
-				delete(m.direct, op.Scope)
+			in.view(op.scope(), func(s network.ResourceScope) error { s.ReleaseMemory(int(op.Size)); return nil })
+			m.direct[op.scope()] -= op.Size
+			if m.direct[op.scope()] == 0 {
+				delete(m.direct, op.scope())
 			}
 		} else {
-			h, sc := in.holder(op.T, op.I)
+			h, sc := in.holder(int(op.T), int(op.I))
 			sc.ReleaseMemory(int(op.Size))
 			h.own -= op.Size
 		}
@@ -1175,14 +1193,14 @@ func (in *c03Inst) applyOp(op c03Op) error {
 		var sp network.ResourceScopeSpan
 		var err error
 		if op.T == c03TScope {
-			err = in.view(op.Scope, func(s network.ResourceScope) error {
+			err = in.view(op.scope(), func(s network.ResourceScope) error {
 				var e error
 				sp, e = s.BeginSpan()
 				return e
 			})
-			nh.ownerScope, nh.depth = op.Scope, 1
+			nh.ownerScope, nh.depth = op.scope(), 1
 		} else {
-			h, sc := in.holder(op.T, op.I)
+			h, sc := in.holder(int(op.T), int(op.I))
 			sp, err = sc.BeginSpan()
 			nh.owner, nh.depth = h, 1
 			if h.kind == c03KSpan {
@@ -1207,7 +1225,7 @@ func (in *c03Inst) applyOp(op c03Op) error {
 		in.outcome(fmt.Sprintf("BeginSpan on %s (depth %d)", c03TNames[op.T], nh.depth))
 
 	case c03OpDone:
-		h, sc := in.holder(op.T, op.I)
+		h, sc := in.holder(int(op.T), int(op.I))
 		sc.Done()
 		if h.closed {
 			in.outcome("Done repeated on " + c03TNames[op.T])
